@@ -54,9 +54,11 @@ func init() {
 	register("C07", "fault_enumeration", 4, 16, 20, 300, 8*time.Minute, 60*time.Minute, eng.RunFaults)
 	register("C08", "exploration", 4, 16, 50, 1000, 8*time.Minute, 60*time.Minute, eng.RunCtxEnd)
 	register("C09", "exploration", 4, 16, 40, 500, 6*time.Minute, 40*time.Minute, eng.RunUsable)
+	register("C10", "fault_enumeration", 4, 16, 15, 300, 10*time.Minute, 60*time.Minute, eng.RunRestart)
 	register("C11", "exploration", 2, 8, 300, 5000, 4*time.Minute, 30*time.Minute, eng.RunCorr)
 	register("C19", "exploration", 2, 8, 1000, 100000, 5*time.Minute, 30*time.Minute, eng.RunSorters)
 	register("C14", "exploration", 2, 8, 500, 20000, 5*time.Minute, 30*time.Minute, eng.RunConfigs)
+	register("C12", "fault_enumeration", 4, 16, 20, 500, 10*time.Minute, 60*time.Minute, eng.RunClose)
 	register("C13", "exploration", 2, 8, 5000, 100000, 5*time.Minute, 30*time.Minute, eng.RunCodec)
 	register("C18", "exploration", 4, 16, 4, 40, 8*time.Minute, 60*time.Minute, eng.RunResidue)
 }
@@ -90,7 +92,8 @@ func main() {
 	}
 	prop, tier := os.Args[2], os.Args[3]
 	if os.Args[1] == "serve" {
-		eng.Serve()
+		n, _ := strconv.Atoi(os.Args[3])
+		eng.Serve(n)
 		return
 	}
 	sp, ok := specs[prop]
